@@ -23,9 +23,11 @@ struct pl_map
     std::size_t dims = 1;
     int jac = 0;
     std::vector<bool> poison;      // per channel: report a sentinel density
+    T cut_lo = T(), cut_hi = T();  // every density vanishes for cut_lo <= y_0 < cut_hi (the weight is 1/0 there)
 
     T density(std::size_t c, std::vector<T> const& y) const
     {
+        if (y[0] >= cut_lo && y[0] < cut_hi) return T();
         T p = T(1);
         for (std::size_t k = 0; k != dims; ++k)
         {
